@@ -1,7 +1,119 @@
 import TLVerif.Codec.Ops.Common
-/-! JSON ops — filled in by the JSON model. -/
+import TLVerif.Codec.JsonText
+/-!
+JSON ops.
+* `codec.xj <sid> <ty> <tlname> <boxed01> <tl1hex>`: read TL1, write JSON, read the JSON back, re-write JSON and TL1:
+  `ok j=<tree dump> valid=1 rt=ok|rej|json|tl1|tl2` | `err eof|rej` (TL1 reader) | `werr` (JSON writer error).
+* `codec.rj <sid> <ty> <tlname> <legacy01> <jsontext-hex>`: parse JSON text, `ReadJSONGeneral`, answer
+  `ok w1b=<TL1 boxed> j=<tree dump of the re-written JSON>` | `err rej`.
+-/
 namespace TLVerif.Codec
+open TLVerif.Util TLVerif.Prim
 
-def handleJson : OpHandler := fun _ _ _ => none
+/-- Values produced by the JSON reader of a TL2-enabled type can have a TL1 mask bit set while the hidden TL2
+presence bit is clear (`none` in `Val`); Go's TL1 writer then writes the zero value. Make that explicit. -/
+def fillTL1 (d : Desc) : Nat → Nat → List Nat → Val → Except CErr Val
+  | 0, _, _, _ => .error .fuel
+  | fuel + 1, ty, params, v =>
+    match d.get? ty, v with
+    | some (.struct s), .struct fs0 =>
+      let fs := fs0.map (·.map unhide)
+      let rec go : List Field → List (Option Val) → Except CErr (List (Option Val))
+        | [], [] => .ok []
+        | f :: r, x :: xs =>
+          match go r xs with
+          | .error e => .error e
+          | .ok rest =>
+            match fieldPresent f fs params, natArgVals fs params f.natArgs with
+            | some true, some na =>
+              (match x with
+               | some y => (fillTL1 d fuel f.ty na y).map (fun y' => some y' :: rest)
+               | none =>
+                 if f.isBit then .ok (some (.struct []) :: rest)
+                 else match jzeroVal d fuel f.ty with
+                   | .ok z => .ok (some z :: rest)
+                   | .error e => .error e)
+            | some false, some _ => .ok (x :: rest)
+            | _, _ => .error .desc
+        | _, _ => .error .shape
+      (go s.fields fs).map Val.struct
+    | some (.union u), .union i x =>
+      match u.variants[i]?, natArgVals [] params u.elemNatArgs with
+      | some (vi, _), some na => (fillTL1 d fuel vi na x).map (Val.union i)
+      | _, _ => .error .shape
+    | some (.array a), .arr es =>
+      match natArgVals [] params a.elem.natArgs with
+      | some na => (es.mapM (fillTL1 d fuel a.elem.ty na)).map Val.arr
+      | none => .error .desc
+    | some (.dict a), .arr es =>
+      match natArgVals [] params a.elem.natArgs with
+      | some na => (es.mapM (fillTL1 d fuel a.elem.ty na)).map Val.arr
+      | none => .error .desc
+    | _, _ => .ok v
+
+def jsonFuel (d : Desc) (n : Nat) : Nat := n + d.insts.size + 16
+
+/-- TL2-origin types have no TL1 serializers (`item.HasTL1()` is false) -/
+def originTL2 (d : Desc) (ty : Nat) : Bool :=
+  match d.get? ty with
+  | some (.struct s) => s.originTL2
+  | some (.union u) => unionOriginTL2 d u
+  | _ => false
+
+def boxedOut (d : Desc) (fuel ty : Nat) (v : Val) : String :=
+  if originTL2 d ty then "n/a" else
+  if hasBoxed d ty then
+    match fillTL1 d fuel ty [] v with
+    | .ok v' => outBytes (writeTL1 d fuel ty false [] v')
+    | .error e => "!" ++ errStr e
+  else "n/a"
+
+def handleJson : OpHandler := fun st op args =>
+  match op, args with
+  | "xj", [sid, ty, _name, boxed, h] =>
+    match st.lookup sid, ty.toNat?, bytesOfHex h with
+    | some sc, some ty, some bs =>
+      let d := sc.desc
+      let fuel := jsonFuel d bs.length
+      let bare := boxed != "1"
+      match readTL1 sc.cfg d fuel ty bare [] bs with
+      | .error e => some (errStr e)
+      | .ok (v, _) =>
+        match writeJson d fuel ty [] v with
+        | .error .shape => some "werr"
+        | .error e => some ("!" ++ errStr e)
+        | .ok j =>
+          let rt :=
+            match readJson d false parseJson fuel ty [] (some j) with
+            | .error .rej => "rej"
+            | .error e => "!" ++ errStr e
+            | .ok v2 =>
+              match writeJson d fuel ty [] v2 with
+              | .ok j2 =>
+                if j2.dump != j.dump then "json"
+                else if boxedOut d fuel ty v2 != boxedOut d fuel ty v then "tl1"
+                else "ok"
+              | .error _ => "json"
+          some s!"ok j={j.dump} valid=1 rt={rt}"
+    | _, _, _ => some "bad-op"
+  | "rj", [sid, ty, _name, legacy, h] =>
+    match st.lookup sid, ty.toNat?, bytesOfHex h with
+    | some sc, some ty, some text =>
+      let d := sc.desc
+      let fuel := jsonFuel d text.length
+      match parseJson text with
+      | none => some "err rej"
+      | some j =>
+        match readJson d (legacy == "1") parseJson fuel ty [] (some j) with
+        | .error .rej => some "err rej"
+        | .error e => some ("!" ++ errStr e)
+        | .ok v =>
+          let jo := match writeJson d fuel ty [] v with
+            | .ok j2 => j2.dump
+            | .error .shape => "werr"
+            | .error e => "!" ++ errStr e
+          some s!"ok w1b={boxedOut d fuel ty v} j={jo}"
+    | _, _, _ => some "bad-op"
+  | _, _ => none
 
 end TLVerif.Codec
